@@ -162,6 +162,16 @@ CLAIMS = {
   note=NOTE_COMMON + "Frozen table: c14_expected.json (driver list, per-driver exceptions and the two multi-kind guard statements of set_use, each with a reason). "
        "Kind tagging by member/method names uses the stems derived from the store names plus a fixed alias list (equilibrium_phases, solid_solutions, "
        "reaction_temperature ...)."),
+ "C11": dict(
+  technique="shift-direction rule on the in-place advective copy loops (affine index analysis of Rxn_copy source/destination vs. the loop update)",
+  text=("Only ONE clause of C11 is decided statically - 'with pure advection the solution in cell i after a shift equals the previous solution of "
+        "its upstream neighbour': every in-place shift loop over the solution store (ADVECTION, TRANSPORT column shift) copies cell i-d into cell i "
+        "and must update its loop variable by -d (symbolically in d = 1 or +-ishift) and start at the downstream end, so that each source cell is "
+        "read before it is overwritten. A loop walking with the copy direction would smear the inflow solution through the whole column in one "
+        "shift. Everything else in C11 (conservation of the column inventory, mixing-factor arithmetic, convexity, stagnant zones, multicomponent "
+        "diffusion, boundary conditions) quantifies over run-time numbers and is NOT decided; the file-scope state of transport.cpp is reported "
+        "under C06."),
+  note=NOTE_COMMON + "A deliberately minimal claim (2 loops, 4 obligations). It says nothing about conservation or bounded mixing."),
  "C12": dict(
   technique="Butcher-tableau extraction by reaching-definition dataflow on the CFG of rk_kinetics + exact rational order conditions (rooted trees to order 5) + step-bookkeeping shape",
   text=("Static analysis of Phreeqc::rk_kinetics only (the explicit integrator): the stage formulas Set_moles(sum a_sj*k_j), the stage "
@@ -197,7 +207,6 @@ CLAIMS = {
 NOT_APPLICABLE = {
  "C01": "quantifies over the numerical solution of the speciation equations for every composition/database; no clause is visible in code shape, and re-evaluating the database equations would be a computation, not a static analysis",
  "C03": "equilibrium end-state (SI = target, phase present/absent, site and mole-fraction sums) is the fixed point of an inequality-constrained Newton iteration; only its numeric outcome can be judged",
- "C11": "conservation, exact shifts and bounded mixing are statements about column inventories after run-time numbers of shifts and mixing factors; the only structural fact (file-scope state in transport.cpp) is reported under C06",
  "C15": "metamorphic equalities between pairs of runs; the unit-conversion routine could only be judged by evaluating it for each unit string, i.e. by executing it (symbolically), which this technique family excludes",
  "C16": "activity-coefficient formulae and Gibbs-Duhem consistency are identities between computed reals; checking literal constants against a reference text would be a frozen-fragment proxy",
  "C18": "admissibility of each reported inverse model depends on the L1 solver's numeric output for each problem",
